@@ -21,9 +21,14 @@ running the close sequence (`on_disconnecting; on_disconnected`) and `disconnect
 Frames arrive only while the connection is up (bytes that arrive between accept and `_on_connected` are the subject of
 `Model.Hsms.Race`); a data block received earlier and still queued for dispatch is the input `rxDataQueued`.
 
-`Defects` selects the variant: `Defects.code` is the code as shipped (F-4: any Select.rsp / Deselect.rsp performs the
-transition; F-5: Separate.req is not handled); `Defects.none` is the code with proposals C05-select-rsp-unchecked and
-C05-separate-ignored applied.
+`Defects` selects the variant: `Defects.none` is the code as it is; `Defects.preFix` is the code before the fix: commits 812b685 (F-4:
+any Select.rsp / Deselect.rsp performed the transition) and bfe991b (F-5: Separate.req was not handled) — kept so that a revert of
+either fix is recognised (the harness replays the two witnesses on every run) and provably deviates from E37.
+
+Timers.  T6 bounds the wait of `send_select_req/deselect_req/linktest_req` (input `timeoutT6`: the requester gives up, nothing else
+happens); the periodic linktest timer is the input `linktestTimer` with the pending timers counted in the state; T7 and T8 are settings
+that nothing reads and `timeoutT7` is a transition nothing performs (`Gen.HsmsProto.timeoutRefs`, `t7Performers`); T5 belongs to the
+TCP client connection.
 -/
 namespace SecsModel.Model.Hsms
 open SecsModel
@@ -72,6 +77,10 @@ def wired (state event handler : String) : Bool := Gen.HsmsProto.wiring.contains
 def entersConnected (c c' : Conn) : Bool :=
   parentOf (connName c') == some "CONNECTED" && parentOf (connName c) != some "CONNECTED" && wired "CONNECTED" "enter" "_on_state_connect"
 
+/-- `State.leave(destination)` climbs to the parent iff the destination is outside it: the transition `c → c'` fires `CONNECTED.leave` -/
+def leavesConnected (c c' : Conn) : Bool :=
+  parentOf (connName c) == some "CONNECTED" && parentOf (connName c') != some "CONNECTED" && wired "CONNECTED" "leave" "_on_state_disconnect"
+
 /-- the destination's own `enter` event: `_on_state_select` fires "communicating" -/
 def entersSelected (c' : Conn) : Bool :=
   c' == .selected && wired "CONNECTED_SELECTED" "enter" "_on_state_select"
@@ -97,6 +106,7 @@ def SType.code : SType → Int
 /-- kind of a request this endpoint has sent and is waiting on (ghost information: `_response_queues` is keyed by system only) -/
 inductive Req
   | select | deselect | linktest
+  | ltimer        -- a Linktest.req sent by `_on_linktest_timer` (its requester re-arms the timer when the wait ends)
 deriving DecidableEq, Repr
 
 inductive In
@@ -108,6 +118,7 @@ inductive In
       -- connection since it was received: the dispatcher thread is not stopped by a close, so this also happens while NOT CONNECTED
   | apiSelect | apiDeselect | apiLinktest                                     -- `send_select_req()` … called by the application / the select thread
   | timeoutT6 (sys : Int)                                                     -- the requester waiting on `sys` gives up
+  | linktestTimer                                                             -- a pending linktest timer fires: `_on_linktest_timer`
 deriving DecidableEq, Repr
 
 inductive Out
@@ -126,8 +137,10 @@ structure Defects where
   separateIgnored : Bool
 deriving DecidableEq, Repr
 
-def Defects.code : Defects := ⟨true, true⟩
+/-- the code as it is (since the fix: commits bfe991b and 812b685) -/
 def Defects.none : Defects := ⟨false, false⟩
+/-- the code before those two commits: any Select.rsp / Deselect.rsp performs the transition, Separate.req is not handled -/
+def Defects.preFix : Defects := ⟨true, true⟩
 
 structure St where
   conn : Conn
@@ -135,13 +148,27 @@ structure St where
   active : Bool                    -- `settings.is_active`
   ctr : Int                        -- `_system_counter`
   opn : List (Int × Req)           -- `_response_queues` keys (+ ghost kind), in insertion order
+  ltStored : Bool                  -- the timer object in `self._linktest_timer` is pending (started, not fired, not cancelled)
+  ltOrphans : Nat                  -- pending linktest timers no attribute refers to any more (see `startTimer`)
 deriving DecidableEq, Repr
 
-def St.init (active : Bool) (ctr : Int) : St := ⟨.notConnected, false, active, ctr, []⟩
+def St.init (active : Bool) (ctr : Int) : St := ⟨.notConnected, false, active, ctr, [], false, 0⟩
+
+/-- `_start_linktest_timer`: a new `threading.Timer` is stored in `self._linktest_timer` and started; a pending one it replaces is
+NOT cancelled — it goes on as an orphan -/
+def startTimer (s : St) : St :=
+  { s with ltOrphans := s.ltOrphans + (if s.ltStored then 1 else 0), ltStored := true }
+
+/-- `_on_state_disconnect`: `if self._linktest_timer: self._linktest_timer.cancel()`; `self._linktest_timer = None` -/
+def cancelTimer (s : St) : St := { s with ltStored := false }
 
 def isOpen (s : St) (sys : Int) : Bool := s.opn.any (fun e => e.1 == sys)
 def isOpenKind (s : St) (sys : Int) (k : Req) : Bool := s.opn.contains (sys, k)
-def closeSys (s : St) (sys : Int) : St := { s with opn := s.opn.filter (fun e => e.1 != sys) }
+/-- the requester waiting on `sys` stops waiting (it was handed a message, or T6 expired) and removes its queue; if it is
+`_on_linktest_timer` it then calls `_start_linktest_timer()` — whether or not the connection still exists -/
+def closeSys (s : St) (sys : Int) : St :=
+  let s' := { s with opn := s.opn.filter (fun e => e.1 != sys) }
+  if s.opn.contains (sys, .ltimer) then startTimer s' else s'
 
 /-- `get_next_system_counter` (generated) -/
 def nextCtr (c : Int) : Int :=
@@ -150,7 +177,7 @@ def nextCtr (c : Int) : Int :=
   | .error _ => c
 
 def Req.stype : Req → SType
-  | .select => .selectReq | .deselect => .deselectReq | .linktest => .linktestReq
+  | .select => .selectReq | .deselect => .deselectReq | .linktest => .linktestReq | .ltimer => .linktestReq
 
 /-- `send_select_req / send_deselect_req / send_linktest_req` up to the blocking `response_queue.get` -/
 def sendReq (s : St) (k : Req) : St × List Out :=
@@ -162,10 +189,12 @@ the requester wakes up and removes its queue -/
 def putIfOpen (s : St) (sys : Int) : St × List Out :=
   if isOpen s sys then (closeSys s sys, [.deliverWaiter sys]) else (s, [])
 
-/-- effects of a successful transition `c → c'`: the wired enter handlers -/
+/-- effects of a successful transition `c → c'`: the wired leave / enter handlers -/
 def afterTransition (s : St) (c' : Conn) : St × List Out :=
-  let s1 := { s with conn := c' }
-  let (s2, o2) := if entersConnected s.conn c' && s.active then sendReq s1 .select else (s1, [])   -- `_on_state_connect`: select thread
+  let s0 := if leavesConnected s.conn c' then cancelTimer s else s                                 -- `_on_state_disconnect`
+  let s1 := { s0 with conn := c' }
+  let s1 := if entersConnected s.conn c' then startTimer s1 else s1                                -- `_on_state_connect`: linktest timer,
+  let (s2, o2) := if entersConnected s.conn c' && s.active then sendReq s1 .select else (s1, [])   --   then the select thread
   (s2, o2 ++ (if entersSelected c' then [.evt "communicating"] else []))                           -- `_on_state_select`
 
 /-! ## the connection-event handlers, executed from their generated statement lists -/
@@ -269,6 +298,14 @@ def handleDataQueued (s : St) (function sys : Int) : St × List Out :=
   if s.conn = .notConnected then (s, [.txBlocked SType.rejectReq.code sys Gen.HsmsSType.DATA_MESSAGE 4])
   else handleData s function sys
 
+/-- `_on_linktest_timer` up to the blocking wait of `send_linktest_req()` (the re-arm happens when that wait ends: `closeSys`).
+Without a connection nothing is written: the Linktest.req goes into the send queue and the timer thread blocks in `send_message`. -/
+def onLinktestTimer (s : St) : St × List Out :=
+  if s.conn = .notConnected then
+    let id := nextCtr s.ctr
+    ({ s with ctr := id, opn := (s.opn.filter (fun e => e.1 != id)) ++ [(id, .ltimer)] }, [.txBlocked SType.linktestReq.code id 0 0])
+  else sendReq s .ltimer
+
 /-! ## the step function -/
 
 def step (d : Defects) (s : St) : In → St × List Out
@@ -289,6 +326,11 @@ def step (d : Defects) (s : St) : In → St × List Out
   | .apiDeselect => if s.conn = .notConnected then (s, []) else sendReq s .deselect
   | .apiLinktest => if s.conn = .notConnected then (s, []) else sendReq s .linktest
   | .timeoutT6 sys => (closeSys s sys, [])
+  | .linktestTimer =>
+    -- which pending timer fires: the stored one if it is pending, else an orphan
+    if s.ltStored then onLinktestTimer { s with ltStored := false }
+    else if s.ltOrphans > 0 then onLinktestTimer { s with ltOrphans := s.ltOrphans - 1 }
+    else (s, [])
 
 /-- a history: the final state and the outputs of every step -/
 def run (d : Defects) : St → List In → St × List (List Out)
